@@ -79,7 +79,7 @@ fn rr(ctx: &mut Ctx, dial: bool) {
     at.sort();
     let v6: Vec<bool> = (0..k).map(|_| dial && ctx.plan(4) == 0).collect();
     // one peer leaves after the judged sends (PUSH/DEALER with >= 2 peers, one case in three)
-    let depart: Option<usize> = if kind != Kind::Req && k >= 2 && ctx.plan(3) == 0 { Some(ctx.plan(k as u64) as usize) } else { None };
+    let depart: Option<usize> = if k >= 2 && ctx.plan(3) == 0 { Some(ctx.plan(k as u64) as usize) } else { None };
     let st = Rc::new(RefCell::new(St::default()));
     st.borrow_mut().conns = vec![None; k];
     let s2 = st.clone();
@@ -241,12 +241,34 @@ fn rr(ctx: &mut Ctx, dial: bool) {
                 let pos = st.keep.iter().position(|(i, _)| *i == d);
                 pos.map(|pos| st.keep.remove(pos))
             };
-            if let (Some((_, p)), true) = (gone, members.len() == k) {
+            // (a REQ partner lives inside its answering task: it is ended by resetting its connection)
+            let departed = if members.len() != k {
+                false
+            } else if kind == Kind::Req {
+                match s2.borrow().conns[d].as_ref().map(|c| c.0.clone()) {
+                    Some(c) => {
+                        c.reset();
+                        rt::count("fault_reset");
+                        true
+                    }
+                    None => false,
+                }
+            } else if let Some((_, p)) = gone {
                 p.close();
+                true
+            } else {
+                false
+            };
+            if departed {
                 rt::task::idle().await;
                 let mut observed = false;
                 for t in 0..2 * k {
                     if sock.send(to_zmq(&tagged(1, t as u32, &[5]))).await.is_err() {
+                        observed = true;
+                        break;
+                    }
+                    if kind == Kind::Req && !matches!(rt::future::or_idle(sock.recv()).await, Some(Ok(_))) {
+                        // the request went to the partner that has gone: the failed recv is how REQ observes it
                         observed = true;
                         break;
                     }
@@ -257,9 +279,24 @@ fn rr(ctx: &mut Ctx, dial: bool) {
                     let mut placed: Vec<usize> = Vec::new();
                     for t in 0..2 * (k - 1) + 1 {
                         let before: Vec<usize> = conns.iter().map(|(c, side)| c.tap_len_from(*side)).collect();
-                        match sock.send(to_zmq(&tagged(2, t as u32, &[5]))).await {
+                        let body2 = tagged(2, t as u32, &[5, 0, 3]);
+                        match sock.send(to_zmq(&body2)).await {
                             Ok(()) => {
                                 let gained: Vec<usize> = (0..k).filter(|j| conns[*j].0.tap_len_from(conns[*j].1) != before[*j]).collect();
+                                if gained.len() == 1 {
+                                    // the complete message, nothing else: REQ puts exactly one delimiter in front
+                                    let j = gained[0];
+                                    let mut wire2 = if kind == Kind::Req { vec![vec![]] } else { vec![] };
+                                    wire2.extend(body2.iter().cloned());
+                                    let tap = conns[j].0.tap_from(conns[j].1);
+                                    if tap[before[j]..] != rc::encode_msg(&wire2)[..] {
+                                        s2.borrow_mut().viol.push(("message_incomplete_or_altered_at_return", format!("{} after peer {d} left: send #{t} put {} bytes on peer {j}'s connection, which are not the encoding of {}", kind.name(), tap.len() - before[j], show_msg(&wire2))));
+                                        return world::park().await;
+                                    }
+                                }
+                                if kind == Kind::Req {
+                                    let _ = rt::future::or_idle(sock.recv()).await;
+                                }
                                 if gained.len() != 1 {
                                     s2.borrow_mut().viol.push(("not_exactly_one_peer", format!("{} after peer {d} left: send #{t} returned Ok but {} connections gained bytes ({:?})", kind.name(), gained.len(), gained)));
                                     return world::park().await;
